@@ -21,7 +21,7 @@ HOSTS = [b"example.com", b"ex%61mple.com", b"8.8.4.4", b"0x7f.1", b"2130706433",
 PORTS = [b"", b":", b":80", b":65535", b":00080"]
 SEGS = [b"a", b".", b"..", b"%2e", b"%2E%2e", b"%2F", b"%41", b"", b"b%3Fc"]
 QUERIES = [b"", b"?", b"?q=%41", b"?a/b?c%2Fd"]
-FRAGS = [b"", b"#", b"#f%41"]
+FRAGS = [b"", b"#", b"#f%41", b"#/route#anchor", b"#a?b#c%41"]
 EMBED = [(b"", b""), (b"see '", b"' now"), (b"x(", b") y"), (b"\x01\x02", None)]
 
 WIN_PREFIX = [b"C:\\", b"C:", b"\\", b"", b"\\\\host\\sh\\", b"\\\\1.2.3.4@SSL@80\\sh\\", b"\\\\a.com\\sh\\", b"\\\\.\\C:\\", b"\\\\?\\UNC\\a.com\\sh\\",
